@@ -27,7 +27,7 @@ META = {
 
 NAMES = ['x', 'm', 'b', 'q']              # deliberately not in alphabetical order
 RHO = [0.11, 0.23, 0.07, 0.31]
-DIAM = {'equal': [1.0, 1.0, 1.0, 1.0], 'unequal': [1.0, 1.4, 0.8, 1.2]}
+DIAM = {'equal': [1.0, 1.0, 1.0, 1.0], 'unequal': [1.0, 1.4, 0.8, 1.2], 'unequal2': [0.7, 0.7, 1.9, 1.05]}
 CALLS = [('pair_correlation', None), ('pmf', None), ('structure_factor', True), ('structure_factor', False),
          ('second_virial', True), ('second_virial', False), ('chi', True), ('chi', False),
          ('spinodal_condition', True), ('spinodal_condition', False), ('solvation_potential', 'HNC'), ('solvation_potential', 'PY')]
@@ -275,7 +275,8 @@ def describe(case):
 
 
 def case_pop(rec, c):
-    spec = base_spec(c['rank'], c['diam'], c['kT'])
+    g = c.get('grid') or [32, 0.2]
+    spec = base_spec(c['rank'], c['diam'], c['kT'], L=g[0], dr=g[1])
     dom = build.make_domain(spec['domain'])
     if not build.domain_ok(dom):
         rec.count('skipped_preconditions')
@@ -438,20 +439,22 @@ def _worker(chunk):
 
 def run(rec, tier, seed):
     quick = tier == 'quick'
-    ranks = [1, 2, 3] if quick else [1, 2, 3, 4]
-    datas = ['A', 'small'] if quick else ['A', 'B', 'small']
+    ranks = [1, 2, 3, 4]
+    datas = ['A', 'B', 'small']
     flagstates = [list(f) for f in itertools.product('FR', repeat=3)]
     cases = []
     for n, d, fl, diam, kT in itertools.product(ranks, datas, flagstates, ['equal', 'unequal'], [1.0, 1.7]):
-        if quick and kT == 1.7 and diam == 'equal':
-            continue
         cases.append({'kind': 'pop', 'rank': n, 'data': d, 'flags': fl, 'diam': diam, 'kT': kT})
+    if not quick:
+        # other grids (odd / prime lengths, other spacings), a third diameter set, a low temperature
+        for n, d, fl, diam, kT, grid in itertools.product(ranks, datas, flagstates, ['unequal', 'unequal2'], [0.6, 1.7], [[45, 0.13], [31, 0.25], [64, 0.1]]):
+            cases.append({'kind': 'pop', 'rank': n, 'data': d, 'flags': fl, 'diam': diam, 'kT': kT, 'grid': grid})
     for n in [r for r in ranks if r >= 2]:
         for i, j in itertools.combinations(range(n), 2):
             for diam in ('equal', 'unequal'):
                 for fl in (['F', 'F', 'F'], ['R', 'R', 'F']):
                     cases.append({'kind': 'chiw', 'rank': n, 'pair': [i, j], 'diam': diam, 'flags': fl})
-    for s in (['mono', 'bin', 'ter'] if quick else ['mono', 'bin', 'ter', 'quat']):
+    for s in ['mono', 'bin', 'ter', 'quat']:
         cases.append({'kind': 'solved', 'system': s})
     chunks = [cases[i::48] for i in range(48)]
     core.pmap(_worker, [c for c in chunks if c], rec)
